@@ -6,19 +6,21 @@ Import ListNotations.
 Open Scope string_scope.
 Open Scope list_scope.
 
-(** The documented fragment: below the document root every node is a mapping tagged !!map, a sequence tagged
-    !!seq, or a scalar with a scalar tag other than !!merge; no alias nodes.  (That a null-tagged scalar resolves to null is no
+(** The documented fragment: below the document root every node is a mapping, a sequence or a scalar as yaml.v3 builds them
+    (collections carry no value, scalars no content, mapping content comes in key/value pairs, no key is tagged !!null), not
+    tagged !!merge; no alias nodes.  The TAG of a node is otherwise free: that it fits the kind where it matters is enforced by
+    pint itself since b22de24 / 4a0d172 (kind_mismatch at the nine sites).  (That a null-tagged scalar resolves to null is no
     longer part of the fragment: pint's strict pre-pass b9483ac enforces it, see Proofs/C01_full.v.) *)
 Definition null_text (s : string) : Prop := s = "" \/ s = "~" \/ s = "null" \/ s = "Null" \/ s = "NULL".
 
 Definition plain_node (m : node) : Prop :=
-  n_alias m = None /\
+  n_alias m = None /\ n_tag m <> mergeTag /\
   match n_kind m with
-  | KMapping => n_tag m = mapTag /\ n_value m = "" /\
+  | KMapping => n_value m = "" /\
                 (exists ps, n_content m = flat_map (fun kv : node * node => [fst kv; snd kv]) ps /\
                             forall k v, In (k, v) ps -> n_tag k <> nullTag)
-  | KSequence => n_tag m = seqTag /\ n_value m = ""
-  | KScalar => n_content m = [] /\ n_tag m <> mapTag /\ n_tag m <> seqTag /\ n_tag m <> mergeTag
+  | KSequence => n_value m = ""
+  | KScalar => n_content m = []
   | _ => False
   end.
 
@@ -36,14 +38,14 @@ Proof. induction ps as [|[k v] r IH]; [reflexivity|]. rewrite flatten_cons. cbn 
 Lemma plain_mapping_content m :
   plain_node m -> n_kind m = KMapping -> n_content m = flatten (mapping_nodes m).
 Proof.
-  intros [_ H] K. rewrite K in H. destruct H as (_ & _ & ps & E & _). unfold mapping_nodes. rewrite E.
+  intros (_ & _ & H) K. rewrite K in H. destruct H as (_ & ps & E & _). unfold mapping_nodes. rewrite E.
   fold (flatten ps). now rewrite mapping_nodes_flatten.
 Qed.
 
 Lemma plain_mapping_keys m k v :
   plain_node m -> n_kind m = KMapping -> In (k, v) (mapping_nodes m) -> n_tag k <> nullTag.
 Proof.
-  intros [_ H] K. rewrite K in H. destruct H as (_ & _ & ps & E & Hk). unfold mapping_nodes. rewrite E.
+  intros (_ & _ & H) K. rewrite K in H. destruct H as (_ & ps & E & Hk). unfold mapping_nodes. rewrite E.
   fold (flatten ps). rewrite mapping_nodes_flatten. apply Hk.
 Qed.
 
@@ -58,13 +60,7 @@ Proof.
 Qed.
 
 Lemma plain_not_merge m : plain_node m -> n_alias m = None /\ n_tag m <> mergeTag.
-Proof.
-  intros [Ha H]. split; [exact Ha|].
-  destruct (n_kind m); try contradiction.
-  - destruct H as (T & _). rewrite T. discriminate.
-  - destruct H as (T & _). rewrite T. discriminate.
-  - tauto.
-Qed.
+Proof. intros (Ha & Ht & _). split; assumption. Qed.
 
 (** ---- aliases in value position ----
     An alias node as yaml.v3 hands it out: kind alias, no content of its own, ShortTag() of its target; the target is not an
